@@ -133,6 +133,7 @@ def run(ck: common.Check, replay=None):
         metas.append(("fifo_delay", n, w, (tx, rx)))
     res = X.compile_designs(ck, designs)
     cases = []
+    ring_cases = []
     for dsg, meta, r in zip(designs, metas, res):
         kind, n, w, mode = meta
         if not r["ok"]:
@@ -151,15 +152,48 @@ def run(ck: common.Check, replay=None):
             c = X.Case(dsg["name"], r["vhdl"], step=f"queue_step {n} {w}%N", init="[0%Z]",
                        assume=f"queue_assume {n}", imports="From Cohdl Require Import Models.StdSpecs.",
                        meta={"component": "Fifo", "N": n, "w": w, "source": dsg["source"]})
+            # second theorem for the same VHDL: the as-coded ring-buffer model (Models/Ring.v), about which
+            # Models/RingProofs.v proves the refinement to queue_step for ALL N
+            ring_cases.append(X.Case(dsg["name"] + "_ring", r["vhdl"], step=f"ring_step {n} {w}%N", init=f"ring_init {n}",
+                                     assume=f"ring_assume {n}", imports="From Cohdl Require Import Models.Ring.",
+                                     meta={"component": "Fifo", "reference": "as-coded model ring_step (Models/Ring.v)",
+                                           "N": n, "w": w, "source": dsg["source"]}))
         else:
             drop = "true" if mode == "DROP_OLD" else "false"
             c = X.Case(dsg["name"], r["vhdl"], step=f"stack_step {n} {w}%N {n.bit_length()}%N {drop}", init="[0%Z]",
                        assume=f"stack_assume {n} {drop}", imports="From Cohdl Require Import Models.StdSpecs.",
                        meta={"component": "Stack", "N": n, "w": w, "mode": mode, "source": dsg["source"]})
+            ring_cases.append(X.Case(dsg["name"] + "_ring", r["vhdl"],
+                                     step=f"stackm_step {n} {w}%N {n.bit_length()}%N {drop}", init=f"stackm_init {n}",
+                                     assume=f"stackm_assume {n} {drop}", imports="From Cohdl Require Import Models.Ring.",
+                                     meta={"component": "Stack", "reference": "as-coded model stackm_step (Models/Ring.v)",
+                                           "N": n, "w": w, "mode": mode, "source": dsg["source"]}))
         cases.append(c)
         ck.hist("components", kind)
-    X.run_cases(ck, cases, "compiled component and its abstract specification differ on an admissible input sequence",
-                key_of=lambda c: {"config": c.name})
+    # the as-coded-model cases run in the same parallel batch, after the abstract-specification cases.
+    # A difference between the VHDL and the as-coded model while the abstract-specification theorem of the same
+    # configuration holds is not a violation of the property (which is decided on the abstract specification):
+    # it means Models/Ring.v no longer describes the code, and is reported as a correspondence that no longer checks.
+    failed = set()
+    orig_violation = ck.violation
+
+    def violation(key, what, replay, no_input=False):
+        cfg = key.get("config", "")
+        if cfg.endswith("_ring"):
+            what = "emitted VHDL and the as-coded model (Models/Ring.v) differ: " + what
+            if cfg[:-5] not in failed:
+                what += " [the abstract-specification theorem of this configuration holds: the model is out of date]"
+                no_input = True
+        else:
+            failed.add(cfg)
+        return orig_violation(key, what, replay, no_input)
+    ck.violation = violation
+    try:
+        X.run_cases(ck, cases + ring_cases, "compiled component and its reference machine differ on an admissible input sequence",
+                    key_of=lambda c: {"config": c.name})
+    finally:
+        ck.violation = orig_violation
+    ck.cov["as_coded_model_cases"] = len(ring_cases)
     ck.cov["rule"] = ("one case per configuration (component, capacity N, data width w, stack mode); each case is a theorem over "
                       "all admissible input sequences; all are non-trivial")
     ck.trusted += ["fail-closed VHDL reader (harness/vhdl_reader.py)", "Vhdl.Sem (modelled VHDL-93 simulation cycle)",
